@@ -5,6 +5,7 @@ from __future__ import annotations
 import numpy as np
 
 from gridrv.monitors import becke_c06 as mon
+from gridrv.monitors import roundtrip
 
 PROP = "C06"
 TITLE = "Atom-in-molecule weights form a partition of unity on every geometry"
@@ -16,8 +17,8 @@ REQUIRED_HOOKS = [
     "BeckeWeights.__call__:chunks>=2",
     "BeckeWeights.__call__:chunks>=5",
     "HirshfeldWeights.__call__",
-]
-REQUIRED_FAMILIES = ["input-forms", "becke-structured", "becke-random", "becke-noble", "becke-select", "becke-axis", "becke-molgrid", "hirshfeld-random", "hirshfeld-molgrid"]
+] + [f"clone:{k}" for k in roundtrip.KINDS]
+REQUIRED_FAMILIES = ["clones-options", "input-forms", "becke-structured", "becke-random", "becke-noble", "becke-select", "becke-axis", "becke-molgrid", "hirshfeld-random", "hirshfeld-molgrid"]
 BUDGET = {"quick": 900, "thorough": 9000}
 RULE = (
     "One case = one molecule (1..40 atoms, elements 1..86 incl. He/Ne/Ar/Kr/Xe/At/Rn whose Bragg radius is NaN, geometries random / "
@@ -32,7 +33,10 @@ RULE = (
     "molecules, per-atom calls sum to one, values equal an own natural-cubic-spline share. input-forms: the same VALUES (chosen representable) are handed "
     "over as int64/int32 lattices (np.mgrid), float32, strided row/column views, Fortran order, read-only arrays, int32/float atnums, for points and/or "
     "atcoords, through every route; the result must equal the one for the float64 C-contiguous copy (1e-13; float32 coordinates: within the "
-    "single-precision conditioning of the formula). A case is non-trivial when at least one group "
+    "single-precision conditioning of the formula). clones-options: the BeckeWeights / HirshfeldWeights object (non-default order, "
+    "custom radii) goes through copy / deepcopy / pickle (kind rotates over the cases) and must give identical weights by every route, the "
+    "original unchanged; select / pt_ind / indices / atnums / order given as tuple, list, int32/int64/uint8 arrays or NumPy scalars must give "
+    "the weights of the plain-Python form (forms the library rejects today are counted, never alarmed on). A case is non-trivial when at least one group "
     "check was evaluated; distinct = distinct generator parameters."
 )
 ASSUMPTIONS = [
@@ -117,6 +121,9 @@ def cases(tier, seed):
     for k in range(6 if q else 40):
         out.append(("becke-beyond-resolution", {"k": k, "M": int(rng.integers(2, 13)), "order": int(rng.integers(1, 7))}, 60.0))
     out.append(("zero-points", {}, 10.0))
+    # clones of the weight objects (copy / deepcopy / pickle) and equal-but-not-identical option values
+    for k in range(48 if q else 600):
+        out.append(("clones-options", {"k": k, "M": 2 + k % 7, "order": [1, 2, 4, 5, 6, 3][k % 6], "clone": roundtrip.KINDS[k % len(roundtrip.KINDS)], "elem": ["light", "uniform", "noble-run"][k % 3]}, 60.0 + (2 + k % 7) ** 3))
     # same values handed over in other array forms (integer lattices, float32, strided / Fortran views, read-only)
     k = 0
     for m in ([1, 2, 3, 4, 5, 7, 9] if q else [1, 2, 3, 4, 5, 6, 7, 8, 9, 10, 12]):
@@ -950,6 +957,156 @@ def forms_case(ctx, params):
             ctx.check("input-form-invariant-single" if single else "input-form-invariant", subj, float(d[k]), tol, sig="differs-from-float64-copy", detail={"abs_diff": float(d[k]), "point": pts[k[1]], **extra})
 
 
+# ------------------------------------------------------------------ clones and option-value spellings
+TOL_SAME = 1e-15  # same code on the same numbers: identical
+
+
+def _same(ctx, clause, subject, got, want, extra):
+    if np.shape(got) != np.shape(want):
+        ctx.check(clause, subject, False, sig="shape", detail={"shapes": [list(np.shape(got)), list(np.shape(want))], **extra})
+        return
+    d = np.abs(np.asarray(got, float) - want)
+    d = np.where(np.isnan(d), np.inf, d)
+    ctx.check(clause, subject, float(d.max()) if d.size else 0.0, TOL_SAME, sig="weights-differ", detail={"max_abs_diff": float(d.max()) if d.size else 0.0, **extra})
+
+
+def clones_options_case(ctx, params):
+    from gridrv import core
+    from grid.becke import BeckeWeights
+    from grid.hirshfeld import HirshfeldWeights
+
+    rng = ctx.rng
+    m, order, kind = int(params["M"]), int(params["order"]), params["clone"]
+    at = make_atoms(rng, m, GEOMS[int(rng.integers(len(GEOMS)))])
+    if at is None:
+        ctx.discard("generator could not place atoms 0.05 bohr apart")
+        return
+    nums = make_elements(rng, m, params["elem"])
+    zs = np.unique(nums)
+    radii = {int(z): float(10.0 ** rng.uniform(-0.5, 0.7)) for z in rng.choice(zs, size=int(rng.integers(1, len(zs) + 1)), replace=False)} if rng.random() < 0.6 else None
+    pts, _ = make_points(rng, at, 40, far_max=1e8)
+    n = len(pts)
+    extra = {"M": m, "order": order, "custom_radii": radii is not None, "atnums": nums[:10]}
+    bw = BeckeWeights(radii=radii, order=order)
+    idx = random_segments(rng, n, m)
+    sel = [int(v) for v in rng.permutation(m)[: max(1, m - 1)]]
+    pt = [int(v) for v in random_segments(rng, n, len(sel))]
+    one = int(rng.integers(0, m))
+
+    def all_routes(b, prefix):
+        """Every route on one weight object, plain Python / int64 argument forms."""
+        out = {}
+        for name, fn in (
+            ("__call__", lambda: matrix_by_call(b, pts, at, nums)[0]),
+            ("__call__(segments)", lambda: b(pts, at, nums, idx)),
+            ("generate_weights", lambda: matrix_by_generate(b, pts, at, nums)),
+            ("generate_weights(select,pt_ind)", lambda: b.generate_weights(pts, at, nums, select=sel, pt_ind=pt)),
+            ("compute_weights", lambda: matrix_by_compute_weights(b, pts, at, nums)),
+            ("compute_weights(select,pt_ind)", lambda: b.compute_weights(pts, at, nums, select=sel, pt_ind=pt)),
+            ("compute_atom_weight", lambda: matrix_by_atom(b, pts, at, nums)),
+        ):
+            with ctx.guard("no-exception", prefix + name):
+                out[name] = fn()
+        mon.reset_run()
+        return out
+
+    base = all_routes(bw, "BeckeWeights.")
+    if len(base) < 7:
+        return
+    _sum_check(ctx, "BeckeWeights.compute_atom_weight", base["compute_atom_weight"], pts, extra)
+    # ---- (1) clone of the weight object: same weights by every route, original unchanged
+    c = roundtrip.check_clone(ctx, "BeckeWeights", bw, kind)
+    if c is not None:
+        got = all_routes(c, f"BeckeWeights<{kind}>.")
+        for name, w in got.items():
+            _same(ctx, "clone-equals-original", f"BeckeWeights.{name}:{kind}", w, base[name], extra)
+        again = all_routes(bw, "BeckeWeights.")
+        for name, w in again.items():
+            _same(ctx, "original-unchanged-by-cloning", f"BeckeWeights.{name}:{kind}", w, base[name], extra)
+        if rng.random() < 0.5:  # a clone of a clone
+            k2 = roundtrip.pick(rng, 1)[0]
+            with ctx.guard("clone-equals-original", f"BeckeWeights:{kind}+{k2}", sig_prefix="raised-while-cloning"):
+                c2 = roundtrip.clone(c, k2)
+                _same(ctx, "clone-equals-original", f"BeckeWeights.compute_atom_weight:{kind}+{k2}", matrix_by_atom(c2, pts, at, nums), base["compute_atom_weight"], extra)
+    # ---- (2) equal-but-not-identical option values.  "must" forms are accepted by the unchanged tree (measured), an
+    # exception there is a failure; "may" forms are rejected today: counted, compared only if a tree accepts them
+    ref_sel = base["generate_weights(select,pt_ind)"]
+    ref_one = base["compute_atom_weight"][one]
+    sel_forms = {"tuple": tuple(sel), "int64-array": np.array(sel, dtype=np.int64), "int32-array": np.array(sel, dtype=np.int32), "list-of-numpy-ints": [np.int64(v) if i % 2 else np.int32(v) for i, v in enumerate(sel)]}
+    pt_forms = {"list": list(pt), "tuple": tuple(pt), "int64-array": np.array(pt, dtype=np.int64), "int32-array": np.array(pt, dtype=np.int32)}
+    sname = list(sel_forms)[int(rng.integers(len(sel_forms)))]
+    for pname, pform in pt_forms.items():
+        for route in ("generate_weights", "compute_weights"):
+            subj = f"BeckeWeights.{route}[select={sname},pt_ind={pname}]"
+            with ctx.guard("option-spelling-invariant", subj):
+                _same(ctx, "option-spelling-invariant", subj, getattr(bw, route)(pts, at, nums, select=sel_forms[sname], pt_ind=pform), ref_sel, extra)
+    for sn, sform in sel_forms.items():
+        for route in ("generate_weights", "compute_weights"):
+            subj = f"BeckeWeights.{route}[select={sn},pt_ind=list]"
+            with ctx.guard("option-spelling-invariant", subj):
+                _same(ctx, "option-spelling-invariant", subj, getattr(bw, route)(pts, at, nums, select=sform, pt_ind=list(pt)), ref_sel, extra)
+    for sn, sform in {"np.int64": np.int64(one), "np.int32": np.int32(one), "np.uint8": np.uint8(one)}.items():
+        for route, fn in (("generate_weights", lambda v: bw.generate_weights(pts, at, nums, select=v)), ("compute_weights", lambda v: bw.compute_weights(pts, at, nums, select=v)), ("compute_atom_weight", lambda v: bw.compute_atom_weight(pts, at, nums, v))):
+            subj = f"BeckeWeights.{route}[select={sn}]"
+            with ctx.guard("option-spelling-invariant", subj):
+                _same(ctx, "option-spelling-invariant", subj, fn(sform), ref_one, extra)
+    for sn, sform in {"[i]": [one], "(i,)": (one,), "array([i])": np.array([one])}.items():
+        for route in ("generate_weights", "compute_weights"):
+            subj = f"BeckeWeights.{route}[select={sn}]"
+            with ctx.guard("option-spelling-invariant", subj):
+                _same(ctx, "option-spelling-invariant", subj, getattr(bw, route)(pts, at, nums, select=sform), ref_one, extra)
+    mon.reset_run()
+    for an, aform in {"int32": nums.astype(np.int32), "uint8": nums.astype(np.uint8)}.items():
+        for route, fn, want in (
+            ("generate_weights", lambda v: bw.generate_weights(pts, at, v, select=sel, pt_ind=pt), ref_sel),
+            ("compute_weights", lambda v: bw.compute_weights(pts, at, v, select=sel, pt_ind=pt), ref_sel),
+            ("compute_atom_weight", lambda v: bw.compute_atom_weight(pts, at, v, one), ref_one),
+            ("__call__", lambda v: bw(pts, at, v, idx), base["__call__(segments)"]),
+        ):
+            subj = f"BeckeWeights.{route}[atnums={an}]"
+            with ctx.guard("option-spelling-invariant", subj):
+                _same(ctx, "option-spelling-invariant", subj, fn(aform), want, extra)
+    mon.reset_run()
+
+    def may(label, fn, want, subj):
+        try:
+            got = fn()
+        except Exception as exc:  # noqa: BLE001
+            if core.is_library_exception(exc) or isinstance(exc, (TypeError, ValueError, AttributeError)):
+                ctx.count("option-form-rejected:" + label)
+                return
+            raise
+        ctx.count("option-form-accepted:" + label)
+        _same(ctx, "option-spelling-invariant", subj, got, want, extra)
+
+    may("atnums-list", lambda: bw.generate_weights(pts, at, [int(z) for z in nums], select=sel, pt_ind=pt), ref_sel, "BeckeWeights.generate_weights[atnums=list]")
+    may("atnums-tuple", lambda: bw.compute_atom_weight(pts, at, tuple(int(z) for z in nums), one), ref_one, "BeckeWeights.compute_atom_weight[atnums=tuple]")
+    may("atnums-list:__call__", lambda: bw(pts, at, [int(z) for z in nums], idx), base["__call__(segments)"], "BeckeWeights.__call__[atnums=list]")
+    may("indices-list:__call__", lambda: bw(pts, at, nums, [int(v) for v in idx]), base["__call__(segments)"], "BeckeWeights.__call__[indices=list]")
+    for on, oform in {"np.int64": np.int64(order), "np.int32": np.int32(order)}.items():
+        may("order-" + on, lambda: matrix_by_atom(BeckeWeights(radii=radii, order=oform), pts, at, nums), base["compute_atom_weight"], f"BeckeWeights[order={on}].compute_atom_weight")
+    mon.reset_run()
+    # ---- Hirshfeld object: clone and index-table spellings
+    hn = np.asarray(rng.choice(HIRSH_ELEMS, m), dtype=np.int64)
+    near = np.linalg.norm(pts[:, None, :] - at[None, :, :], axis=-1).max(axis=1) < 12.0
+    hp = np.ascontiguousarray(pts[near])
+    if len(hp) >= 4:
+        hw = HirshfeldWeights()
+        hidx = random_segments(rng, len(hp), m)
+        with ctx.guard("no-exception", "HirshfeldWeights.__call__"):
+            href = hw(hp, at, hn, hidx)
+            hc = roundtrip.check_clone(ctx, "HirshfeldWeights", hw, kind)
+            if hc is not None:
+                _same(ctx, "clone-equals-original", f"HirshfeldWeights.__call__:{kind}", hc(hp, at, hn, hidx), href, extra)
+                _same(ctx, "original-unchanged-by-cloning", f"HirshfeldWeights.__call__:{kind}", hw(hp, at, hn, hidx), href, extra)
+            for iname, iform in {"list": [int(v) for v in hidx], "tuple": tuple(int(v) for v in hidx), "int32-array": hidx.astype(np.int32)}.items():
+                subj = f"HirshfeldWeights.__call__[indices={iname}]"
+                with ctx.guard("option-spelling-invariant", subj):
+                    _same(ctx, "option-spelling-invariant", subj, hw(hp, at, hn, iform), href, extra)
+        may("hirshfeld-atnums-int32", lambda: hw(hp, at, hn.astype(np.int32), hidx), href, "HirshfeldWeights.__call__[atnums=int32]")
+        may("hirshfeld-atnums-list", lambda: hw(hp, at, [int(z) for z in hn], hidx), href, "HirshfeldWeights.__call__[atnums=list]")
+
+
 def run_case(ctx, family, params):
     if family in ("becke-structured", "becke-random", "becke-noble"):
         becke_case(ctx, params, family)
@@ -971,5 +1128,7 @@ def run_case(ctx, family, params):
         zero_points_case(ctx, params)
     elif family == "input-forms":
         forms_case(ctx, params)
+    elif family == "clones-options":
+        clones_options_case(ctx, params)
     else:
         raise ValueError(family)
